@@ -487,16 +487,20 @@ coap_cancel_observe_lkd(coap_session_t *session, coap_binary_t *token,
                                                  otoken->s,
                                                  NULL);
 
-        lg_crcv->observe_set = 0;
         if (pdu == NULL)
           return 0;
         /* Need to make sure that this is the correct requested type */
         pdu->type = type;
 
-        coap_update_option(pdu, COAP_OPTION_OBSERVE,
-                           coap_encode_var_safe(buf, sizeof(buf),
-                                                COAP_OBSERVE_CANCEL),
-                           buf);
+        if (!coap_update_option(pdu, COAP_OPTION_OBSERVE,
+                                coap_encode_var_safe(buf, sizeof(buf),
+                                                     COAP_OBSERVE_CANCEL),
+                                buf)) {
+          /* Would otherwise go out as a (re-)registration */
+          coap_delete_pdu(pdu);
+          return 0;
+        }
+        lg_crcv->observe_set = 0;
         if (lg_crcv->o_block_option) {
           coap_update_option(pdu, lg_crcv->o_block_option,
                              coap_encode_var_safe(buf, sizeof(buf),
